@@ -231,6 +231,7 @@ def run_check(mod, tier, update_expected=False, only=None, keep=False, verbose=F
     rep_dir = os.path.join(VERIF, 'replays')
     os.makedirs(rep_dir, exist_ok=True)
     matched_findings = set()
+    kf_proof = kf_bounded = 0
     for (j, o, r) in violations:
         hit = None
         for i, f in enumerate(findings):
@@ -240,13 +241,16 @@ def run_check(mod, tier, update_expected=False, only=None, keep=False, verbose=F
         if hit is not None:
             matched_findings.add(hit)
             known_hits.append((j.name, o['id']))
+            if j.kind == 'proof':
+                kf_proof += 1
+            else:
+                kf_bounded += 1
             continue
         real_violations.append((j, o, r))
     for i in sorted(matched_findings):
         out_lines.append('KNOWN-FINDING: property=%s %s' % (pid, findings[i]['text']))
     # obligations that fail only because of a listed known finding are reported separately, not as
     # undischarged proof obligations
-    kf_n = len(known_hits)
     # group per job: one replay per (job, first failing obligation)
     seen_jobs = {}
     for (j, o, r) in real_violations:
@@ -296,8 +300,8 @@ def run_check(mod, tier, update_expected=False, only=None, keep=False, verbose=F
                 dropped.append(x)
     dropped += meta.get('dropped_by_staging', [])
     cov = {
-        'obligations': proof_total - kf_n, 'discharged': proof_ok, 'known_finding_obligations': kf_n,
-        'bounded_obligations': bnd_total, 'bounded_discharged': bnd_ok,
+        'obligations': proof_total - kf_proof, 'discharged': proof_ok, 'known_finding_obligations': kf_proof + kf_bounded,
+        'bounded_obligations': bnd_total - kf_bounded, 'bounded_discharged': bnd_ok,
         'bounds': sorted(set('%s: %s' % (j.name, j.bound) for j in jobs if j.kind == 'bounded' and j.bound)),
         'checker_cmd': 'goto-cc -E (stage) | goto-cc --function h | goto-instrument --dfcc h --enforce-contract f '
                        '[--replace-call-with-contract g] [--apply-loop-contracts] | cbmc --bounds-check --pointer-check '
